@@ -61,7 +61,7 @@ def defects(M, kind, tier):
     out = []
     for k in ks(tier):
         e = 10.0 ** k
-        for (i, j) in ((0, 0), (0, 1), (n - 1, 0)):
+        for (i, j) in itertools.product(range(n), range(n)):
             B = M.copy()
             B[i, j] += e
             out.append(('entry%d%d' % (i, j), k, B))
@@ -72,9 +72,10 @@ def defects(M, kind, tier):
         B[:n, :n] += e * np.array([[0.3, -0.7, 0.2], [0.5, 0.1, -0.9], [-0.4, 0.8, 0.6]])[:n, :n]
         out.append(('noise', k, B))
         if se:
-            B = M.copy()
-            B[n, 0] = e
-            out.append(('lastrow0', k, B))
+            for j in range(n):
+                B = M.copy()
+                B[n, j] = e
+                out.append(('lastrow0%d' % j, k, B))
             B = M.copy()
             B[n, n] = 1 + e
             out.append(('lastrow1', k, B))
@@ -249,15 +250,18 @@ def twist_cases(ctx):
             bads = []
             for kk in ks(tier):
                 e = 10.0 ** kk
-                B = S.copy()
-                B[0, 1] += e
-                bads.append(('sym', kk, B, e / 2))
-                B = S.copy()
-                B[1, 1] += e
-                bads.append(('diag', kk, B, e))
-                B = S.copy()
-                B[n, 0] = e
-                bads.append(('lastrow0', kk, B, e))
+                for (i, j) in itertools.permutations(range(n), 2):
+                    B = S.copy()
+                    B[i, j] += e
+                    bads.append(('sym%d%d' % (i, j), kk, B, e / 2))
+                for i in range(n):
+                    B = S.copy()
+                    B[i, i] += e
+                    bads.append(('diag%d' % i, kk, B, e))
+                for j in range(n):
+                    B = S.copy()
+                    B[n, j] = e
+                    bads.append(('lastrow0%d' % j, kk, B, e))
                 B = S.copy()
                 B[n, n] = e
                 bads.append(('lastrow1', kk, B, e))
